@@ -338,7 +338,7 @@ func (m *mutator) edit() bool {
 	if len(ts) == 0 {
 		return false
 	}
-	kind := []int{0, 0, 0, 1, 1, 1, 2, 2, 2, 2, 2, 2, 3, 4, 5, 6, 7, 8, 8, 9, 9, 10, 10, 11, 12, 12, 13, 13, 14}[m.pick("edit", 29)]
+	kind := []int{0, 0, 0, 1, 1, 1, 2, 2, 2, 2, 2, 2, 3, 4, 5, 6, 7, 8, 8, 9, 9, 10, 10, 11, 12, 12, 13, 13, 14, 15, 15}[m.pick("edit", 31)]
 	switch kind {
 	case 0: // integer operand -> hostile constant
 		var idx []int
@@ -517,6 +517,14 @@ func (m *mutator) edit() bool {
 				m.edits = append(m.edits, label)
 			}
 		}
+	case 15: // an embedded CMap (ToUnicode, /Encoding of a composite font) replaced by a hostile one
+		out, label := tamperCMap(m.data, m.rnd)
+		if out == nil {
+			return false
+		}
+		m.data = out
+		m.edits = append(m.edits, label)
+		m.forceRepair = true
 	case 14: // junk before the header
 		out, label := addPreamble(m.data, m.rnd)
 		if out == nil {
